@@ -15,14 +15,19 @@ from ..gen import Gen
 CFG = "SPECIFICATION Spec\nINVARIANT Judge\n"
 
 
-def clash_names(rng, P):
+def clash_names(rng, P, order="shuffle"):
     """rename the actions of P to a family of names that are prefixes / counter-suffixed forms of one
     another (n, n_0, n_1, n_0_0 ...): the forms compilers generate for action variants and ground instances"""
     import json
 
     base = rng.choice(["a", "act", "move", "op"])
     fam = [base, base + "_0", base + "_1", base + "_0_0", base + "_" + (P["objects"][0]["name"] if P["objects"] else "x")]
-    rng.shuffle(fam)
+    # the family in generation order (n before n_0 before n_0_0: the order in which a compiler would itself create
+    # them), reversed, or shuffled
+    if order == "shuffle":
+        rng.shuffle(fam)
+    elif order == "rev":
+        fam.reverse()
     P = json.loads(json.dumps(P))
     ren = {}
     for a, n in zip(P["actions"], fam):
@@ -43,7 +48,7 @@ def corpus(ctx, per):
                 cid += 1
                 P = g.problem()
                 if adv and k % 2 == 1:
-                    P = clash_names(ctx.rng, P)
+                    P = clash_names(ctx.rng, P, ("fwd", "rev", "shuffle")[(k // 2) % 3])
                 # every second problem is compiled twice through ONE compiler instance and the second result is judged
                 jobs.append((cid, P, cname, "reuse" if k % 2 == 0 else False))
     return jobs
@@ -90,7 +95,7 @@ def stats(ctx, recs, batch):
 
 def run(ctx):
     q = ctx.quick
-    per = 24 if q else 200
+    per = 36 if q else 200
     jobs = corpus(ctx, per)
     with Pool(14, maxtasksperchild=40) as pool:
         recs = pool.map(compobs.worker, jobs, chunksize=2)
